@@ -476,7 +476,7 @@ def run(ctx):
         'distinct_nontrivial': len(nontrivial),
         'distinct': len(distinct),
         'rule': 'behaviours of ZDemo = TLC-evaluated directed scenarios (module ZDemoScript; families seam / conflict / check / '
-                'undo / new_oid / push / clock / pack / abort / mix), TLC counterexamples for the code as it is, and seeded TLC '
+                'undo / new_oid / push / clock / pack / pack-seam / pack-gc / blob / abort / mix), TLC counterexamples for the code as it is, and seeded TLC '
                 '-simulate behaviours (2 oids, <= 2 base + 6 demo transactions, <= 3 layers), each replayed on every base x '
                 'changes combination; distinct = distinct (combination, call sequence); non-trivial = at least 2 transactions '
                 'committed through a demo storage and an object with revisions on both sides of a seam; after EVERY call the '
